@@ -3,6 +3,7 @@
 -/
 import SplVerif.Lemmas.ParserTables
 import SplVerif.Lemmas.Resync
+import SplVerif.Lemmas.Prefix
 
 namespace Spl.C05
 
@@ -27,5 +28,57 @@ theorem global_resync (ctx : Parse.Ctx) (fuel : Nat) (s s' : Parse.St) (start : 
     (∀ q, s.pos ≤ q → q < s'.pos → ∀ i t, ParseConform.Next ctx.toks q i → ctx.toks[i]? = some t →
       ParseConform.isSync t.ty.kind = false) :=
   ParseConform.global_resync ctx fuel s s' start skipped h
+
+open Spl.ParseConform in
+/-- **Declarations in front of the damage keep their sub-trees verbatim.**  If the non-comment tokens
+    of a token sequence start with declarations `ds` that the grammar specification derives
+    (`DeclsPrefix`: type and procedure declarations one behind the other) and go on with `rest` —
+    a damaged declaration, garbage, further declarations, anything — then every program the parser
+    returns for the sequence starts with exactly these declarations: the sub-trees with the ranges,
+    `Reference` offsets and doc comments the grammar mandates and no diagnostic in them.  What
+    follows cannot reach back into them. -/
+theorem prefix_verbatim (toks : List Token) (ds : List (Ref GlobalDecl)) (rest : Grammar.Toks)
+    (h : DeclsPrefix ⟨toks.toArray⟩ (tsFrom toks.toArray 0) ds rest) (prog : Program)
+    (hp : Parse.parse toks = .ok prog) : ∃ more, prog.decls = ds.map Grammar.relDecl ++ more :=
+  parse_prefix toks ds rest h prog hp
+
+open Spl.ParseConform in
+/-- **Behind the damage the loop continues as the grammar mandates.**  Wherever the declaration loop
+    stands directly behind a token (after `global_resync`: in front of the doc comments of the next
+    declaration): if the remaining tokens are declarations the grammar derives, followed by anything,
+    the loop returns exactly these declarations — each with the sub-tree of the undamaged program
+    relative to its own start — and goes on behind them like a loop started there. -/
+theorem loop_resumes (ctx : Parse.Ctx) (ts rest : Grammar.Toks) (ds : List (Ref GlobalDecl))
+    (h : DeclsPrefix ⟨ctx.toks⟩ ts ds rest) (s : Parse.St) (f : Nat) (hat : At ctx s ts) (href : s.refPos = 0) :
+    ∃ e, s.pos ≤ e ∧ At ctx { s with pos := e } rest ∧ ds.length + rest.length ≤ ts.length ∧
+      Parse.many0 (Parse.refParse (Parse.parseGlobalDecl ctx) none) (f + ds.length) s =
+        prependRes (ds.map Grammar.relDecl)
+          (Parse.many0 (Parse.refParse (Parse.parseGlobalDecl ctx) none) f { s with pos := e }) :=
+  prefix_conf ctx h s f hat href
+
+open Spl.ParseConform in
+/-- the declarations of every derivation of the grammar are such a prefix (followed by the end of file) -/
+theorem derivation_is_prefix (g : Grammar.GCtx) (fd : Nat) (ts : Grammar.Toks) (ds : List (Ref GlobalDecl))
+    (last : Option Nat) (h : Grammar.decls g fd ts = some (ds, last)) :
+    ∃ ieof, DeclsPrefix g ts ds [⟨ieof, .Eof⟩] :=
+  decls_is_prefix g fd ts ds last h
+
+/-- the tokens of `proc a() {} *` -/
+def exampleToks : List Token :=
+  [⟨.Proc, ⟨0, 4⟩, []⟩, ⟨.Ident ['a'], ⟨5, 6⟩, []⟩, ⟨.LParen, ⟨6, 7⟩, []⟩, ⟨.RParen, ⟨7, 8⟩, []⟩,
+   ⟨.LCurly, ⟨9, 10⟩, []⟩, ⟨.RCurly, ⟨10, 11⟩, []⟩, ⟨.Times, ⟨12, 13⟩, []⟩, ⟨.Eof, ⟨13, 13⟩, []⟩]
+
+example : (match lex "proc a() {} *".toList with | .ok ts => ts == exampleToks | .error _ => false) = true := by
+  decide +kernel
+
+open Spl.ParseConform in
+/-- Non-vacuity of `prefix_verbatim`: a procedure declaration followed by garbage. -/
+example : ∃ ds, ds.length = 1 ∧
+    DeclsPrefix ⟨exampleToks.toArray⟩ (tsFrom exampleToks.toArray 0) ds [⟨6, .Times⟩, ⟨7, .Eof⟩] := by
+  have e : tsFrom exampleToks.toArray 0 = [⟨0, .Proc⟩, ⟨1, .Ident ['a']⟩, ⟨2, .LParen⟩, ⟨3, .RParen⟩, ⟨4, .LCurly⟩,
+      ⟨5, .RCurly⟩, ⟨6, .Times⟩, ⟨7, .Eof⟩] := rfl
+  rw [e]
+  exact ⟨_, rfl, DeclsPrefix.proc 0 1 ['a'] 2 .LParen _ [] 3 .RParen 4 .LCurly _ [] _ .nil 5 .RCurly _ _ [] rfl
+    (Or.inl ⟨3, _, rfl, rfl, rfl⟩) rfl rfl rfl rfl rfl (DeclsPrefix.nil _)⟩
 
 end Spl.C05
